@@ -70,9 +70,11 @@ NoGtRow == [gt |-> Row3(HET, HOM1, HET).gt, bad |-> FALSE, fmt |-> "nogt"]
 MCSeq_fmt == SeqsUpTo({Row3(HET, HOM1, HET), Row3(HOM0, HET, HOM1), NoGtRow, Row3(MISS, HOM1, HET)}, 3)
 \* records with the SAME allele counts per population but different numbers of called chromosomes, distributed differently over
 \* the populations (and one complete record): whatever is remembered from one projected record must not be reused for the next
-CacheRows == {Row3(MISS, HET, HOM0), Row3(HET, HOM0, MISS), Row3(HOM0, HET, MISS), Row3(HET, MISS, HOM0), Row3(HET, HOM0, HOM0)}
-MCSeq_cache == SeqsUpTo(CacheRows, 3)
-ListsTwoPop == {<<E("s1", "A"), E("s10", "A"), E("s2", "B")>>, <<E("s1", "A"), E("s10", "B"), E("s2", "B")>>}
+\* ... and records whose allele COUNTS equal the called TOTALS of another one (2 and 2, or 4)
+CacheRows == {Row3(MISS, HET, HOM0), Row3(HET, HOM0, MISS), Row3(HOM0, HET, MISS), Row3(HET, MISS, HOM0), Row3(HET, HOM0, HOM0),
+              Row3(HOM1, HOM0, HOM1), Row3(HOM1, HOM1, HOM0)}
+MCSeq_cache == SeqsUpTo(CacheRows, 2) \cup {<<x, Row3(HET, HOM0, HOM0), y>> : x \in CacheRows, y \in CacheRows}
+ListsTwoPop == {<<E("s1", "A"), E("s10", "A"), E("s2", "B")>>, <<E("s1", "A"), E("s10", "B"), E("s2", "B")>>, AllMarker}
 \* sample names that look like something else to a careless parser: a leading '#' (a comment?), a name with a blank
 SH == {"s1", "#s2", "s 3"}
 RowH(x, y, z) == [gt |-> [s \in SH |-> IF s = "s1" THEN x ELSE IF s = "#s2" THEN y ELSE z], bad |-> FALSE]
@@ -82,6 +84,9 @@ ListsHash == {AllMarker, <<E("s1", "A"), E("#s2", "B"), E("s 3", "A")>>, <<E("#s
 MCSeq_names == {<<RowH(HET, HOM0, HOM0), RowH(HOM1, HET, HOM0), RowH(HOM1, MISS, HET)>>, <<RowH(HOM0, HOM1, MISS)>>}
 \* ploidy errors that carry no called allele at all (././. and the like) are errors like any other, wherever they stand
 NoAlleleFaults == {Row3(HET, HET, G3(Dot, Dot, Dot)), Row3(G3(Dot, Dot, Dot), HOM1, HET), Row3(MISS, [a |-> <<Dot, Dot, Dot, Dot>>, s |-> <<"/", "/", "/">>], HET)}
+\* several SKIPPED records at one and the same position (a split multiallelic site): each of them is a record of its own
+SamePosSkipped == {WithPos(Row3(MISS, HOM1, HET), 7), WithPos(Row3(MULT, HOM0, HOM1), 7), WithPos(Row3(HET, HOM1, MISS), 7), WithPos(Row3(HET, HOM1, HET), 7)}
+MCSeq_samepos == SeqsUpTo(SamePosSkipped, 3)
 MCSeq_fault2 == SeqsUpTo({Row3(HET, HOM1, HET), Row3(MISS, HOM1, HET)} \cup NoAlleleFaults, 2)
 \* records at which NO selected sample is called while an unselected one is ("private to another cohort"), next to complete ones
 PrivateRows == {Row3(MISS, MISS, HET), Row3(MULT, MISS, HOM1), Row3(HET, HOM1, HET), Row3(HOM0, HET, HOM0), Row3(MISS, MISS, MISS)}
@@ -132,7 +137,9 @@ PaddedLists == {<<E("s1", "A"), E(" s2", "A")>>, <<E("s2 ", U)>>, <<E("s1", "A")
 EmptyLabelLists == {<<E("s1", ""), E("s10", U)>>, <<E("s1", U), E("s10", "")>>, <<E("s1", ""), E("s10", "B"), E("s2", U)>>,
                     <<E("s1", ""), E("s10", "")>>, <<E("s2", U), E("s1", ""), E("s10", U)>>,
                     <<E("s1", U), E("s10", "[unnamed]"), E("s2", "[unnamed]")>>, <<E("s1", "[unnamed]"), E("s10", U)>>,
-                    <<E("s1", "unnamed"), E("s10", U), E("s2", "Unnamed")>>}
+                    <<E("s1", "unnamed"), E("s10", U), E("s2", "Unnamed")>>,
+                    \* a label may contain the character that separates sample from label: everything after the FIRST '=' is label
+                    <<E("s1", "deme=1"), E("s10", "deme=2"), E("s2", "deme=1")>>, <<E("s10", "="), E("s1", U)>>}
 MCLists_perm == ListsOver(S3) \cup SpacedLists \cup PaddedLists \cup EmptyLabelLists \cup {AllMarker, <<>>, <<E("s1", "A"), E("z", "A")>>, <<E("z", U)>>}
 MCLists_perm_quick == {l \in ListsOver(S3) : Len(l) >= 2 /\ l[1].s # "s2"} \cup SpacedLists \cup PaddedLists \cup EmptyLabelLists \cup {AllMarker, <<>>, <<E("s1", "A"), E("z", "A")>>}
 \* three asymmetric records so that every permutation is visible in the result
